@@ -188,6 +188,19 @@ PROPS = {
                                      'items outside the matrix or set after audio: only "audio and other items intact" is asserted'],
         floor={'quick': 500, 'thorough': 2000},
     ),
+    'C17': dict(
+        runs=[dict(src='c17_command_grid.c')],
+        level='exploration',
+        exhaustive=True,
+        rule=('grid enumerated completely: command id in {0x0FF0..0x1500, 0x2000..0x2200, 0x6000..0x6010, 0, 1, -1, 0x10000, 0x11003, 0x7fffffff} (covers every SFC_* of the '
+              'public header, the two test ids and ~1800 undefined ids) x handle in {NULL, read, write-empty, write-with-data, rdwr} x format (4 quick / 12 '
+              'thorough: WAV, WAVEX, RF64, AIFF, CAF, RAW with integer and float encodings) x datasize in {0..40, every struct size used by any command +-8, '
+              'channels*4/8 +-2, 100000} (ids in the defined ranges; 14 sizes for the others) x data in {NULL, exact-size heap block of zeros, plausible struct with '
+              'hostile length fields, 0xFF}. case = (id, handle, format); distinct counts cases'),
+        assumptions=COMMON_ASSUME + ['"more than datasize bytes" is decided by AddressSanitizer red zones around exact-size malloc blocks (malloc (0) for datasize 0)',
+                                     'query commands = SFC_GET_* and SFC_CALC_* (list in c17_command_grid.c); their purity is a digest over hook state + backing store'],
+        floor={'quick': 5000, 'thorough': 20000},
+    ),
 }
 
 NOT_APPLICABLE = {}
